@@ -48,6 +48,14 @@ class C14Runner(HistoryRunner):
 	def judge_run(self, ctx: dict[str, Any]) -> None:
 		i, rec = ctx['i'], ctx['rec']
 		if rec['status'] != 'ok':
+			# a run that read stored symbols and fails where the cache-less process succeeds: the imported table is not the exported one
+			# (fault-free runs only; lost / stale-transitive files are handled above and in C05)
+			restored_any = [ev[1] for ev in rec.get('trace', []) if ev[0] == 'open-r' and file_class(ev[1]) == 'symbols' and module_of_cache_file(ev[1]) and module_of_cache_file(ev[1])[0] in self.proj.state]
+			if rec['status'] == 'error' and not ctx['fault'] and restored_any and not (ctx['tainted_before'] & set(restored_any)):
+				fresh = self.cold.get(self.proj.state, modules=self.order)
+				if fresh['status'] == 'ok':
+					self.violation('run-on-restored-symbols-fails-fresh-succeeds', i, {'error': {k: (rec.get('error') or {}).get(k) for k in ('cls', 'site', 'msg')}, 'restored': sorted(restored_any)[:4]}, sig=(rec.get('error') or {}).get('cls', ''))
+					return
 			self.bump('probes', f"run {rec['status']} (not judged here)")
 			return
 		seen = (rec.get('result') or {}).get('observed') or {}
@@ -413,6 +421,18 @@ class C14(Engine):
 				ops.append({'op': 'edit-reload', 'pick': (j + 0.5) / n, 'v': 2})
 			ops += round_trip()
 			cases.append({'engine': 'session', 'pool': pool, 'ops': ops, 'in_memory': True})
+		# byte-identical modules in two packages (same file stem, same imports: identical Module.identity): each keeps its own stored symbols
+		from tranpsim.c06 import TWIN_SRC
+		twin = pools.fixed_pool(2)
+		twin['modules'] = twin['modules'] + ['src.util', 'pkg.util']
+		for m in ('src.util', 'pkg.util'):
+			twin['variants'][m] = [{'src': src, 'imports': [], 'note': f'twin{n}'} for n, src in enumerate(TWIN_SRC)]
+		cases.append({'engine': 'history', 'pool': twin, 'ops': [run, run, {'op': 'edit', 'm': 'pkg.util', 'v': 1, 'dt': 10**9}, run, {'op': 'edit', 'm': 'src.util', 'v': 1, 'dt': 10**9}, run, run]})
+		ops = []
+		for j in range(10):
+			p = (j + 0.5) / 10
+			ops += [{'op': 'export', 'pick': p}, {'op': 'module-unload', 'pick': p}, {'op': 'import', 'pick': p}]
+		cases.append({'engine': 'session', 'pool': twin, 'ops': ops})
 		# prefix-related sibling modules (src.a / src.ab / src.a_b): taking one module's symbols away must leave the others' alone
 		fan = pools.gen_pool(random.Random(9), shape='fan', n_variants=3, allow_invalid=False, names=['src.d', 'src.ab', 'src.a', 'src.a_b'], swap_p=0.0)
 		for unload in ('db-unload', 'module-unload'):
